@@ -80,7 +80,7 @@ def gap_D(run, ell_maxes, rotors, per_ell, deep=False):
                     worst = max(worst, rel)
                     run.gap_case("D-vs-documented-polynomial", (L, R, ell, mp_, m), lab,
                                  {"ell_max": L, "R": list(R), "ell": ell, "mp": mp_, "m": m, "err_over_(ell+1)eps": round(rel, 3)})
-                    if rel > K_BOUND:
+                    if not (rel <= K_BOUND):
                         run.violation("D-differs-from-definition", "Wigner.D", {"ell_max": L, "R": list(R), "ell": ell, "mp": mp_, "m": m, **band_info(R)},
                                       str(oracle.to_complex(ex)), str(complex(got)), detail={"err_over_(ell+1)eps": rel, "stratum": lab})
                         break
@@ -110,7 +110,7 @@ def gap_d(run, ell_maxes, betas, per_ell):
                     rel = e / ((ell + 1) * EPS)
                     worst = max(worst, rel)
                     run.gap_case("d-vs-documented-polynomial", (L, z, ell, mp_, m), lab, {"ell_max": L, "expibeta": [z.real, z.imag], "ell": ell, "mp": mp_, "m": m, "err_over_(ell+1)eps": round(rel, 3)})
-                    if rel > K_BOUND:
+                    if not (rel <= K_BOUND):
                         run.violation("d-differs-from-definition", "Wigner.d", {"ell_max": L, "expibeta": [z.real, z.imag], "ell": ell, "mp": mp_, "m": m},
                                       str(float(ex)), str(float(got)), detail={"err_over_(ell+1)eps": rel})
                         break
@@ -165,12 +165,14 @@ def check(run):
     deep = bool(run.broken)
     wrapper_checks(run)
     gap_D(run, [4, 24] if quick and not deep else ([4, 24, 64] if quick else [4, 24, 64, 128, 256]), rotors, 6 if quick else 10)
+    if quick:
+        gap_D(run, [128] if not deep else [128, 256], [rotors[0], rotors[9], rotors[14]] + rotors[-2:], 4)   # a large calculator on a few rotors (overflow / accumulation defects appear only there)
     gap_D(run, [0, 1, 2], rotors[::3], 6)     # the smallest calculators (ell_max = 0 is the lower edge of "all calculator sizes")
     gap_D(run, [12], subnormal_band_rotors(), 6)
     gap_d(run, [0, 1, 16] if quick else [0, 1, 16, 96, 256], betas, 6 if quick else 10)
     run.assumptions += ["numba compiles IEEE operations in source order without contraction (re-measured by the bitwise correspondence every run)",
                         "rounding-error bound K=16 (ell+1) eps is checked by oracle sampling only (no theorem): DESIGN.md §5",
-                        "identification of the recursion's exact limit with the documented polynomial for ell>1 is not proved (IsGDFamily hypothesis)"]
+                        "identification of the recursion's exact limit with the documented d: proved for ell<=2 and at both poles for every ell (DDef, DDef2); for ell>=3 proved CONDITIONALLY on the documented d satisfying the Gumerov-Duraiswami relations (GDFamily.objd_eq_doc_of_IsGDFamily; the relations have a unique solution, GDFamily.IsGDFamily.unique); that hypothesis is pure mathematics and is covered here by oracle sampling only"]
 
 
 def replay(body):
